@@ -59,6 +59,40 @@ class Engine:
         self.models = models.MODELS
         self.methods = models.METHODS
         self._uf = {}
+        self.infer_schema_fields()
+
+    def infer_schema_fields(self):
+        """A class may have gained a plain-data field the sidecar schema does not know yet.  Its kind is read from the
+        source (annotated __init__ parameter stored into self.<name>, or an annotated dataclass field) so that the functions
+        touching it stay inside the verified subset; nothing is assumed about its value."""
+        prim = {'bool': 'bool', 'int': 'int', 'float': 'real'}
+        for cname, sch in S.CLASSES.items():
+            if '<' in sch.qualname:
+                continue
+            try:
+                mod = self.repo.module(sch.qualname.rsplit('.', 1)[0])
+            except ContractError:
+                continue
+            cdef = mod.classes.get(cname) if hasattr(mod, 'classes') else None
+            found = {}
+            init = mod.functions.get(cname + '.__init__')
+            if init is not None:
+                ann = {a.arg: a.annotation.id for a in init.args.args + init.args.kwonlyargs
+                       if isinstance(a.annotation, ast.Name) and a.annotation.id in prim}
+                for n in ast.walk(init):
+                    if (isinstance(n, ast.Assign) and len(n.targets) == 1 and isinstance(n.targets[0], ast.Attribute) and
+                            isinstance(n.targets[0].value, ast.Name) and n.targets[0].value.id == 'self' and
+                            isinstance(n.value, ast.Name) and n.value.id in ann):
+                        found[n.targets[0].attr] = prim[ann[n.value.id]]
+            if isinstance(cdef, ast.ClassDef):
+                for n in cdef.body:
+                    if isinstance(n, ast.AnnAssign) and isinstance(n.target, ast.Name) and isinstance(n.annotation, ast.Name) \
+                            and n.annotation.id in prim:
+                        found[n.target.id] = prim[n.annotation.id]
+            for f, kind in found.items():
+                if f not in sch.fields and ('_' + f) not in sch.fields:
+                    sch.fields[f] = parse_kind(kind)
+                    self.assumed.add("field %s.%s is not in the contract schema: kind %s read from its annotation in the source" % (cname, f, kind))
 
     # ------------------------------------------------------------ utilities
     def uf(self, name, *sorts):
